@@ -159,6 +159,7 @@ def cases(rng, quick, gr):
     # bad listed values: must be refused
     bad = [("int", '"a"'), ("int", "1.5"), ("int", "2j"), ("float", '"x"'), ("float", "1j"), ("str", "1"), ("str", "True"),
            ("bool", "2"), ("bool", '"t"'), ("int", '"5"'), ("float", '"1.5"'), ("complex", '"1"'),
+           ("float", "{a}"), ("int", "2 * {a}"), ("float", "q0"), ("int", "q1 + 1"),
            ("int", "3.0000000001"), ("int", "2 * 1.000000001"), ("bool", "1.000000001"), ("int", "1 - 1e-12"), ("int", "0.9999999999")]
     for ty, v in bad:
         for pos in range(3):
@@ -166,7 +167,18 @@ def cases(rng, quick, gr):
             if ty == "bool":
                 vals = ["True", "False", "True"]
             vals[pos] = v
-            yield {"tag": "bad-value", "text": HDR + "for %s i in [%s]\n    Op(i) | 0\nVac | 1\n" % (ty, ", ".join(vals))}
+            t_bad = HDR + "MeasureX | 0\nMeasureX | 1\nfor %s i in [%s]\n    Op(i) | 0\nVac | 1\n" % (ty, ", ".join(vals)) if "q" in v else HDR + "for %s i in [%s]\n    Op(i) | 0\nVac | 1\n" % (ty, ", ".join(vals))
+            if "{" in v or "q" in v:
+                # a symbolic value (template parameter, measured register) is not a value of the loop type: judged on the implementation
+                def pred(impl, t=t_bad, v=v, ty=ty):
+                    try:
+                        impl.loads(t)
+                    except Exception:  # noqa: BLE001
+                        return None
+                    return "the symbolic value %s listed in a %s loop was accepted" % (v, ty)
+                yield {"tag": "bad-value-symbolic", "pred": pred, "key": t_bad, "input": {"check": "must-refuse", "text": t_bad}}
+                continue
+            yield {"tag": "bad-value", "text": t_bad}
     yield {"tag": "zero-step", "text": HDR + "for int i in 0:4:0\n    Op(i) | 0\n"}
     # the loop variable is not visible after the loop
     yield {"tag": "scoped", "text": HDR + "for int i in 0:2\n    Op(i) | 0\nOp(i) | 1\n"}
@@ -197,6 +209,15 @@ def run(tier, seed):
 
 def replay(rep):
     inp = rep["input"]
+    if inp.get("check") == "must-refuse":
+        import impl
+        try:
+            impl.loads(inp["text"])
+            print("loaded as a program")
+            return 1
+        except Exception as e:  # noqa: BLE001
+            print("refused:", type(e).__name__)
+            return 0
     if inp.get("check") == "unroll":
         import impl
         pa, pb = impl.loads(inp["text"]), impl.loads(inp["unrolled"])
